@@ -3,11 +3,13 @@
 import json, os
 HERE = os.path.dirname(os.path.dirname(os.path.abspath(__file__)))
 
-CLAIMED = {
- "C01": ("CFG must-pass-through (dominance) analysis + template-string abstract interpretation of dispatch chains + table comparison",
-         "Decides three necessary structural clauses of C01 on the current source: (a) every emission of an optimized block is dominated by the built-in comparison saying 'equal' or by the fallback re-binding; (b) opcode→operator→opcode round trip is the identity and injective on the optimizable vocabulary; (c) the stack-arity table equals the EVM reference. Does not decide equivalence of any concrete block.",
-         "§4/C01"),
-}
+import sys, importlib
+sys.path.insert(0, HERE)
+CLAIMED = {}
+for _p in ["C%02d" % i for i in range(1, 19)]:
+    if os.path.exists(os.path.join(HERE, "sa", "rules", _p + ".py")):
+        _m = importlib.import_module("sa.rules." + _p)
+        CLAIMED[_p] = (_m.TECHNIQUE, _m.LEVEL_TEXT, "§4/" + _p)
 
 NOT_APPLICABLE = {
  "C07": "optimum preservation quantifies over the model set of formulas generated at run time; no shape of the generator's source implies or refutes it (needs a solver or exhaustive search, which is a different technique family)",
